@@ -353,9 +353,10 @@ def r4_header(ctx):
     ok = False
     if len(rets) == 1 and F.constructed_class(ctx, rets[0][1], new) is ht:
         b = F.bind_args(rets[0][1], ctx.prog.find_method(ht, '__init__'), True)
-        ok = src(b.get('encoding')) == "f'**{type.prefix()}{token.encoding[2:]}'" and src(b.get('spine_id')) == 'token.spine_id'
-        if not ok and isinstance(b.get('encoding'), ast.BinOp):
-            ok = src(b.get('encoding')) in ("'**' + type.prefix() + token.encoding[2:]",) and src(b.get('spine_id')) == 'token.spine_id'
+        parts = F.text_parts(b.get('encoding')) if b.get('encoding') is not None else []
+        ok = parts in ([('lit', '**'), ('expr', 'type.prefix()'), ('expr', 'token.encoding[2:]')],
+                       [('lit', '**'), ('expr', 'type.prefix()'), ('expr', "token.encoding[len('**'):]")]) \
+            and src(b.get('spine_id')) == 'token.spine_id'
     ctx.check(ok, 'R4', new.loc, new.qualname, 'header-rewrite',
               "a header is exported as '**' + encoding prefix + original type with the original spine id",
               f'HeaderTokenGenerator.new returns `{src(rets[0][1])[:120] if rets else None}`')
